@@ -515,3 +515,90 @@ func runC21C(tb stat.TB, c c21CCase) {
 var propC21C = defProp("C21", "TestC21Concurrent", genC21C, runC21C)
 
 func TestC21Concurrent(t *testing.T) { propC21C.Test(t) }
+
+// ---- expiry racing a fresh Put (run under -race, real time)
+//
+// "A lookup returns a copy of the most recent value stored for the key if it has not expired, been invalidated or been
+// evicted." K keys are stored with a TTL of a few milliseconds and left to expire; the TTL is then raised to an hour
+// and, for every key at once, one goroutine looks the (expired) key up while another stores a fresh value. When both
+// have returned the fresh value is the most recent one stored, it has not expired, nothing invalidates and the
+// capacity is not reached: a lookup must return it. Cleaning up the expired entry may not take the fresh one with it.
+
+type c21ECase struct {
+	Keys   int `json:"keys"`
+	Rounds int `json:"rounds"`
+	TTLms  int `json:"ttl_ms"`
+	Gets   int `json:"gets"` // concurrent lookups per key
+}
+
+func genC21E(t *rapid.T) c21ECase {
+	return c21ECase{Keys: rapid.IntRange(4, 40).Draw(t, "keys"), Rounds: rapid.IntRange(1, 4).Draw(t, "rounds"), TTLms: rapid.IntRange(1, 3).Draw(t, "ttl"), Gets: rapid.IntRange(1, 3).Draw(t, "gets")}
+}
+
+func runC21E(tb stat.TB, c c21ECase) {
+	const id, check = "C21", "TestC21Expiry"
+	ttl := time.Duration(c.TTLms) * time.Millisecond
+	ac := absnfs.NewAttrCache(ttl, 1000)
+	dc := absnfs.NewDirCache(ttl, 1000, 100)
+	var mu sync.Mutex
+	var bad, sig string
+	judged := 0
+	for r := 0; r < c.Rounds && bad == ""; r++ {
+		ac.UpdateTTL(ttl)
+		dc.UpdateTTL(ttl)
+		for k := 0; k < c.Keys; k++ {
+			p := fmt.Sprintf("/e/k%d", k)
+			ac.Put(p, absnfs.NewVerifAttrs(0644, int64(1000*r+1), 0, 0, 0))
+			dc.Put(p, []os.FileInfo{fakeInfo{"old", int64(1000*r + 1)}})
+		}
+		time.Sleep(ttl + 2*time.Millisecond)
+		ac.UpdateTTL(time.Hour)
+		dc.UpdateTTL(time.Hour)
+		var wg sync.WaitGroup
+		start := make(chan struct{})
+		for k := 0; k < c.Keys; k++ {
+			p := fmt.Sprintf("/e/k%d", k)
+			fresh := int64(1000*r + 2)
+			for g := 0; g < c.Gets; g++ {
+				wg.Add(1)
+				go func() { defer wg.Done(); <-start; ac.Get(p); dc.Get(p) }()
+			}
+			wg.Add(1)
+			go func() {
+				defer wg.Done()
+				<-start
+				ac.Put(p, absnfs.NewVerifAttrs(0644, fresh, 0, 0, 0))
+				dc.Put(p, []os.FileInfo{fakeInfo{"new", fresh}})
+			}()
+		}
+		close(start)
+		wg.Wait()
+		for k := 0; k < c.Keys; k++ {
+			p := fmt.Sprintf("/e/k%d", k)
+			fresh := int64(1000*r + 2)
+			judged++
+			if a, ok := ac.Get(p); !ok || a == nil || a.Size != fresh {
+				mu.Lock()
+				sig, bad = "fresh-entry-lost-to-expiry-cleanup:attr", fmt.Sprintf("round %d: AttrCache.Get(%s) after a completed Put of a fresh value (TTL one hour, capacity 1000, no invalidation) returned (%v, %v); a lookup of the expired predecessor ran beside the Put", r, p, a, ok)
+				mu.Unlock()
+				break
+			}
+			if e, ok := dc.Get(p); !ok || len(e) != 1 || e[0].Size() != fresh {
+				mu.Lock()
+				sig, bad = "fresh-entry-lost-to-expiry-cleanup:dir", fmt.Sprintf("round %d: DirCache.Get(%s) after a completed Put of a fresh listing (TTL one hour, capacity 1000, no invalidation) returned (%d entries, %v); a lookup of the expired predecessor ran beside the Put", r, p, len(e), ok)
+				mu.Unlock()
+				break
+			}
+		}
+	}
+	if bad != "" {
+		stat.Violate(tb, id, check, sig, c, "%s", bad)
+		return
+	}
+	stat.Label("fresh_puts_judged", int64(judged))
+	stat.Case(c, true)
+}
+
+var propC21E = defProp("C21", "TestC21Expiry", genC21E, runC21E)
+
+func TestC21Expiry(t *testing.T) { propC21E.Test(t) }
